@@ -208,9 +208,10 @@ def register(props):
                       "[C12_collision_refuted, D19]; underneath: C12_order_independent_partial, C12_schema_lookups_order_free; "
                       "(3) with the decoded-default cache made explicit state, every result after any history equals the result on a "
                       "fresh instance and the cache is a function of the schema alone [C12_oracles_pointwise, "
-                      "C12_history_free_partial, C12_state_is_function_of_schema]. Remaining partial: the unit-parsing caches are not "
-                      "modelled as state; that perm_schema preserves wf_schema is not proved (the verdict half assumes well-formedness "
-                      "of both descriptions); argument preservation is observed, not proved.",
+                      "C12_history_free_partial, C12_state_is_function_of_schema]. Well-formedness is assumed on the first "
+                      "description only: perm_env/perm_schema preserve wf_schema [C12_wf_order_free, C12_order_independent_verdict]. "
+                      "Remaining partial: the unit-parsing caches are not modelled as state; argument preservation is observed on the "
+                      "implementation, not proved.",
         "level_note": "Model = Schema/Ops.v; Schema/Perm.v (perm_val, perm_schema, has_key_collision); Proofs/C12ResultBase.v "
                       "(keys_distinct = kfree, kc). Tied to the code by the c12pure family (outcome class + the purity flags); "
                       "struct-mapped objects by the direct check only. The class predicate of D19 (has_key_collision, key TEXTS) "
